@@ -256,6 +256,26 @@ func genC09Case(r *rand.Rand, idx int64, orders int) *c09Case {
 	if r.IntN(4) == 0 && len(ts) > 0 {
 		ts = append(ts, cloneTup(ts[r.IntN(len(ts))]))
 	}
+	// object references: in a third of the untyped cases one or two inner sets are
+	// addressed with the EMPTY relation (`Group:n3#`, how OPL-style clients refer
+	// to a plain object); an empty relation is a legal relation name
+	if c.CfgKind == "untyped" && len(sets) > 0 && idx%3 == 2 {
+		for k, n := 0, 1+r.IntN(2); k < n; k++ {
+			v := sets[r.IntN(len(sets))]
+			if v.Relation == "" || (v.Namespace == root.Namespace && v.Object == root.Object) {
+				continue
+			}
+			for _, t := range ts {
+				if t.Namespace == v.Namespace && t.Object == v.Object && t.Relation == v.Relation {
+					t.Relation = ""
+				}
+				if ss := t.SubjectSet; ss != nil && ss.Namespace == v.Namespace && ss.Object == v.Object && ss.Relation == v.Relation {
+					ss.Relation = ""
+				}
+			}
+			v.Relation = ""
+		}
+	}
 	c.tuples = ts
 	c.roots = []*ketoapi.SubjectSet{root}
 	if len(sets) > 0 && r.IntN(2) == 0 {
